@@ -20,6 +20,7 @@ import random
 import re
 import shutil
 import time as _time
+from concurrent.futures import ThreadPoolExecutor
 
 from ..common import Ctx, setup_repo_path
 from ..tlc import FrozenDict, MachineryError, parse_label, parse_state, run_tlc, scratch_dir
@@ -294,8 +295,8 @@ def sample_generate_id(ctx, real, rt, proj, chunk, samples, forced):
 # ------------------------------------------------------------------------------------------------------
 # TLC validation of chunks
 # ------------------------------------------------------------------------------------------------------
-def validate(ctx, docs, tag, expect_reject=False, count=True):
-    """-> (accepted, TlcResult). On rejection of real traces a violation is recorded."""
+def run_validation(docs):
+    """TLC on a batch of traces (no bookkeeping: may run in a worker thread) -> TlcResult"""
     tmp = scratch_dir("c14t-")
     try:
         path = os.path.join(tmp, "traces.json")
@@ -318,6 +319,13 @@ def validate(ctx, docs, tag, expect_reject=False, count=True):
             r = r2
     finally:
         shutil.rmtree(tmp, ignore_errors=True)
+    return r
+
+
+def validate(ctx, docs, tag, expect_reject=False, count=True, result=None):
+    """-> (accepted, TlcResult). On rejection of real traces a violation is recorded.
+    result: the TlcResult when TLC already ran (in a worker thread)."""
+    r = result if result is not None else run_validation(docs)
     if expect_reject:
         return (not r.ok), r
     ctx.add_tlc(tag, r)
@@ -468,18 +476,23 @@ def label_text(lab):
     return "%s(%s)" % (name, ", ".join("".join(map(str, a)) if isinstance(a, tuple) else str(a) for a in args))
 
 
-def replay_graph(ctx, real, cfg, tag, rng, max_ops, queries_per_state, qdocs):
+def dump_graph(cfg):
+    """TLC state graph of a configuration (no bookkeeping: may run in a worker thread)"""
     tmp = scratch_dir("c14g-")
     try:
         dot = os.path.join(tmp, "g.dot")
         r = run_tlc("Kademlia.tla", cfg, dump=dot)
         if not r.ok:
             raise MachineryError("Kademlia %s: TLC reports %s on the specification itself" % (cfg, r.violated))
-        ctx.add_tlc(tag, r)
         check_coverage(r, cfg, ("Add", "Touch", "RemoveBad"))
-        states, init, out, nedges = load_graph(dot)
+        return (r,) + load_graph(dot)
     finally:
         shutil.rmtree(tmp, ignore_errors=True)
+
+
+def replay_graph(ctx, real, cfg, tag, rng, max_ops, queries_per_state, qdocs, graph=None):
+    r, states, init, out, nedges = graph if graph is not None else dump_graph(cfg)
+    ctx.add_tlc(tag, r)
     index = {}
     for sid, st in states.items():
         index[state_key(st)] = sid
@@ -527,18 +540,30 @@ def replay_graph(ctx, real, cfg, tag, rng, max_ops, queries_per_state, qdocs):
                                   {"cfg": cfg, "actions": labels, "problems": p.problems})
                     return
                 if dst is None or dst not in out[cur][lab]:
+                    # report the (shorter) known path to this state + the failing call, if that diverges as well
+                    short = [label_text(x) for x in path[cur] + (lab,)]
+                    w2 = ModelWorld(real, st0, rng)
+                    try:
+                        for x in path[cur] + (lab,):
+                            w2.apply(*x)
+                        if w2.project()[1] == key:
+                            labels = short
+                    except Exception:  # noqa: BLE001
+                        pass
                     ctx.violation("replay:%s" % lab[0],
-                                  "real RoutingTable leaves Kademlia.tla at %s: table %s is none of the %d tables the "
-                                  "specification allows" % (labels[-1], show_table(p), len(out[cur][lab])),
+                                  "real RoutingTable leaves Kademlia.tla at %s (after %d calls): table %s is none of the %d "
+                                  "tables the specification allows" % (labels[-1], len(labels) - 1, show_table(p, w.w),
+                                                                       len(out[cur][lab])),
                                   {"cfg": cfg, "my": "".join(map(str, st0["my"])), "cap": st0["cap"], "actions": labels,
-                                   "real_table": show_table(p)})
+                                   "real_table": show_table(p, w.w)})
                     return
                 if dst not in path:
                     path[dst] = path[cur] + (lab,)
                     order.append(dst)
                     todo[dst] = sorted(out.get(dst, {}), key=repr)
                     if queries_per_state and (queries_per_state > 1 or len(order) % 3 == 0):
-                        query_state(real, w, p, rng, queries_per_state, qdocs, "%s:%s" % (tag, "/".join(labels)))
+                        query_state(real, w, p, rng, queries_per_state, qdocs,
+                                    "%s:%s" % (tag, "/".join(label_text(x) for x in path[dst])))
                 cur = dst
         except Diverged as e:
             ctx.violation("replay:diverged", str(e), {"cfg": cfg, "actions": labels})
@@ -570,12 +595,9 @@ def replay_graph(ctx, real, cfg, tag, rng, max_ops, queries_per_state, qdocs):
                                "complete": covered == pairs_all, "real_operations": ops, "walks": walks})
 
 
-def show_table(p):
-    return {k or "''": [bits_short(i) for i in ids] for k, ids in sorted(p.buckets.items())}
-
-
-def bits_short(node_id):
-    return format(int.from_bytes(node_id, "big"), "0160b").rstrip("0") or "0"
+def show_table(p, width=4):
+    w = max([width] + [len(k) for k in p.buckets])
+    return {k or "''": ["".join(map(str, bits_of(i, w))) for i in ids] for k, ids in sorted(p.buckets.items())}
 
 
 def query_state(real, w, proj, rng, nq, qdocs, origin):
@@ -771,8 +793,37 @@ def corrupt_eviction(docs):
 
 
 # ------------------------------------------------------------------------------------------------------
+def model_check(cfg, acts):
+    r = run_tlc("Kademlia.tla", cfg, timeout=7200)
+    if not r.ok:
+        raise MachineryError("%s: TLC reports %s on the specification itself" % (cfg, r.violated))
+    check_coverage(r, cfg, acts)
+    return r
+
+
+def show_replay(path):
+    """--replay <file>: print the recorded counterexample; a replayed model walk is executed again on the real code."""
+    with open(path, encoding="utf-8") as f:
+        doc = json.load(f)
+    print("replay %s: %s" % (doc.get("signature"), doc.get("description")))
+    rp = doc.get("replay") or {}
+    if isinstance(rp.get("actions"), list) and rp.get("my"):
+        real = Real()
+        w = ModelWorld(real, {"my": tuple(int(c) for c in rp["my"]), "cap": rp["cap"]}, random.Random(0))
+        for text in rp["actions"]:
+            name, rest = text.rstrip(")").split("(", 1)
+            args = []
+            for a in filter(None, (x.strip() for x in rest.split(","))):
+                args.append(a == "True" if a in ("True", "False") else
+                            tuple(int(c) for c in a) if name != "RemoveBad" and not args else int(a))
+            w.apply(name, tuple(args))
+            print("  %-28s -> %s" % (text, show_table(w.project()[0], w.w)))
+
+
 def run(tier, seed, replay=None):
     setup_repo_path()
+    if replay:
+        show_replay(replay)
     ctx = Ctx(PID, tier, seed, "model_checking")
     ctx.cov["rule"] = ("(R) TLC dumps the complete state graph of small Kademlia.tla configurations; in every state the real "
                        "code reaches, every enabled action label is executed on the real RoutingTable and the projected "
@@ -787,104 +838,120 @@ def run(tier, seed, replay=None):
     rng = random.Random(seed)
     real = Real()
     quick = tier == "quick"
+    acts = ("Add", "Touch", "RemoveBad")
+    pool = ThreadPoolExecutor(max_workers=4)
+    try:
+        # ---- TLC jobs that depend on nothing start right away (worker threads only run TLC, no bookkeeping)
+        f_ctl_gen = pool.submit(run_tlc, "Kademlia.tla", "Kademlia_gen_pinned.cfg", coverage=False)
+        f_ctl_split = pool.submit(run_tlc, "Kademlia.tla", "Kademlia_splitany.cfg", coverage=False)
+        if quick:
+            plan = [("Kademlia_w3c1.cfg", "w3c1", 25000, 1), ("Kademlia_w4c2_pool5.cfg", "w4c2_pool5", 25000, 1)]
+        else:
+            plan = [("Kademlia_w3c1.cfg", "w3c1", None, 2), ("Kademlia_w4c2_pool5.cfg", "w4c2_pool5", None, 2),
+                    ("Kademlia_w3c2_addr.cfg", "w3c2_addr", None, 1), ("Kademlia_w4c2_pool.cfg", "w4c2_pool6", None, 1),
+                    ("Kademlia_w4c2_d4.cfg", "w4c2_d4", None, 0)]
+        f_graphs = [pool.submit(dump_graph, cfg) for cfg, _t, _m, _n in plan]
+        # model checking without binding: closest_nodes walk == brute force, generate_id, larger tables
+        plain = [("Kademlia_closest_w3.cfg", "closest_w3", acts), ("Kademlia_gen.cfg", "gen_w3", acts + ("GenerateId",))]
+        if not quick:
+            plain += [("Kademlia_closest_w3x.cfg", "closest_w3x", acts),
+                      ("Kademlia_closest_w4pool.cfg", "closest_w4_pool7", acts),
+                      ("Kademlia_closest_w4.cfg", "closest_w4_d4", acts),
+                      ("Kademlia_w3c2.cfg", "w3c2_full", acts), ("Kademlia_w4c1.cfg", "w4c1_full", acts),
+                      ("Kademlia_w5c2.cfg", "w5c2_d4", acts)]
+        f_plain = [pool.submit(model_check, cfg, a) for cfg, _tag, a in plain]
 
-    # ---- spec level negative controls
-    r = run_tlc("Kademlia.tla", "Kademlia_gen_pinned.cfg", coverage=False)
-    ctx.control("spec whose generate_id ignores the bucket prefix violates GeneratedIdInBucket",
-                r.violated == "GeneratedIdInBucket")
-    r = run_tlc("Kademlia.tla", "Kademlia_splitany.cfg", coverage=False)
-    ctx.control("spec that splits buckets off our own path violates OwnPathShape / SplitOnlyOwnPath",
-                r.violated in ("OwnPathShape", "SplitOnlyOwnPath", "action-property"))
-
-    # ---- model checking without binding: closest_nodes walk == brute force, generate_id, larger tables
-    plain = [("Kademlia_closest_w3.cfg", "closest_w3", ("Add", "Touch", "RemoveBad")),
-             ("Kademlia_gen.cfg", "gen_w3", ("Add", "Touch", "RemoveBad", "GenerateId"))]
-    if not quick:
-        plain += [("Kademlia_closest_w3x.cfg", "closest_w3x", ("Add", "Touch", "RemoveBad")),
-                  ("Kademlia_closest_w4.cfg", "closest_w4_d4", ("Add", "Touch", "RemoveBad")),
-                  ("Kademlia_w3c2.cfg", "w3c2_full", ("Add", "Touch", "RemoveBad")),
-                  ("Kademlia_w5c2.cfg", "w5c2_d4", ("Add", "Touch", "RemoveBad"))]
-    for cfg, tag, acts in plain:
-        r = run_tlc("Kademlia.tla", cfg, timeout=7200)
-        ctx.add_tlc(tag, r)
-        if not r.ok:
-            raise MachineryError("%s: TLC reports %s on the specification itself" % (cfg, r.violated))
-        check_coverage(r, cfg, acts)
-
-    # ---- R
-    qdocs = []
-    if quick:
-        plan = [("Kademlia_w3c1.cfg", "w3c1", 25000, 1), ("Kademlia_w4c2_pool5.cfg", "w4c2_pool5", 25000, 1)]
-    else:
-        plan = [("Kademlia_w3c1.cfg", "w3c1", None, 2), ("Kademlia_w4c2_pool5.cfg", "w4c2_pool5", None, 2),
-                ("Kademlia_w3c2_addr.cfg", "w3c2_addr", None, 1), ("Kademlia_w4c2_pool.cfg", "w4c2_pool6", None, 1),
-                ("Kademlia_w4c2_d4.cfg", "w4c2_d4", 1500000, 0)]
-    for cfg, tag, max_ops, nq in plan:
-        if ctx.violations:
-            break
-        replay_graph(ctx, real, cfg, tag, rng, max_ops, nq, qdocs)
-    ctx.cov["exhaustive"] = not quick
-    if qdocs and not ctx.violations:
-        for width in sorted({d["w"] for d in qdocs}):
-            part = [d for d in qdocs if d["w"] == width]
-            for i in range(0, len(part), 4000):
-                ok, _r = validate(ctx, part[i:i + 4000], "closest_model_w%d_%d" % (width, i // 4000))
-                if not ok:
-                    break
-        ctx.sample({"model_table": qdocs[len(qdocs) // 2]["origin"], "queries": qdocs[len(qdocs) // 2]["events"][:2]})
-
-    # ---- T + E
-    if quick:
-        hist = [("crowd", 2000, 8, 60), ("stairs", 120, 2, 40), ("tight", 100, 1, 40), ("clustered", 150, 3, 50),
-                ("mixed", 120, 8, 40)]
-    else:
-        hist = [("crowd", 2000, 8, 60), ("uniform", 2000, 8, 60), ("clustered", 2000, 8, 60), ("mixed", 2000, 8, 60),
-                ("stairs", 1000, 8, 50), ("tight", 1000, 8, 50), ("stairs", 600, 2, 50), ("mixed", 1000, 3, 50),
-                ("tight", 400, 1, 50)]
-        hist += [(rng.choice(("mixed", "clustered", "stairs", "uniform", "tight", "crowd")), 300, rng.choice((1, 2, 3, 4, 8)), 50)
-                 for _ in range(16)]
-    all_docs = []
-    gen_sampled, gen_forced = [], []
-    summaries = []
-    table_ok = not ctx.violations
-    if table_ok:
+        # ---- T + E: record the histories (real code, main thread), hand the chunks to TLC as they are complete
+        if quick:
+            hist = [("crowd", 2000, 8, 60), ("stairs", 120, 2, 40), ("tight", 100, 1, 40), ("clustered", 150, 3, 50),
+                    ("mixed", 120, 8, 40)]
+        else:
+            hist = [("crowd", 2000, 8, 60), ("uniform", 2000, 8, 60), ("clustered", 2000, 8, 60), ("mixed", 2000, 8, 60),
+                    ("stairs", 1000, 8, 50), ("tight", 1000, 8, 50), ("stairs", 600, 2, 50), ("mixed", 1000, 3, 50),
+                    ("tight", 400, 1, 50)]
+            hist += [(rng.choice(("mixed", "clustered", "stairs", "uniform", "tight", "crowd")), 300,
+                      rng.choice((1, 2, 3, 4, 8)), 50) for _ in range(16)]
+        all_docs, f_traces = [], []
+        gen_sampled, gen_forced = [], []
+        summaries = []
+        pending = []
         for hi, (kind, n, cap, clen) in enumerate(hist):
             docs, summ = record_history(ctx, real, random.Random(rng.getrandbits(64)), kind, n, cap, clen,
                                         "h%d-%s-cap%d" % (hi, kind, cap), gen_samples=2 if quick else 4,
                                         gen_docs=(gen_sampled, gen_forced), gen_every=8 if n >= 1000 else 3)
             all_docs += docs
+            pending += docs
             summaries.append(summ)
+            while len(pending) >= 80 or (pending and hi == len(hist) - 1):
+                batch, pending = pending[:80], pending[80:]
+                f_traces.append((batch, pool.submit(run_validation, batch)))
         ctx.note("histories", summaries)
         table_ok = not any(v[0].startswith("history:") for v in ctx.violations)
-    if all_docs and table_ok:
-        batch = 80
-        for i in range(0, len(all_docs), batch):
-            ok, _r = validate(ctx, all_docs[i:i + batch], "trace_%d" % (i // batch))
-            if not ok:
-                table_ok = False
-                break
-        d = all_docs[0]
-        ctx.sample({"history_chunk": d["origin"], "first_events": [
-            {k: v for k, v in e.items() if k not in ("table", "attr")} for e in d["events"][:4]]})
-    # E: generate_id documents are validated on their own, so a defect there does not hide the table checks;
-    # seeded draws and forced extremes are told apart when something is rejected
-    both = gen_sampled + gen_forced
-    if both:
-        ok, _r = validate(ctx, both, "generate_id")
-        if not ok and gen_sampled and gen_forced:
-            validate(ctx, gen_sampled, "generate_id_sampled")
-            validate(ctx, gen_forced, "generate_id_forced")
-        ctx.sample({"generate_id_chunk": both[0]["origin"], "events": both[0]["events"][:2]})
-    ctx.note("generate_id", {"calls_decided_by_tlc": sum(len(d["events"]) for d in both),
-                             "random_source_forced_to_extremes": bool(gen_forced)})
+        both = gen_sampled + gen_forced
+        f_gen = pool.submit(run_validation, both) if both else None
+        # negative controls of the trace binding (only interpreted when the material they corrupt was accepted)
+        ctl = [("trace whose closest_nodes answer has its two nearest nodes swapped is rejected", corrupt_closest),
+               ("trace whose table holds a node in a bucket that does not own it is rejected", corrupt_bucket)]
+        if not quick:
+            ctl.append(("trace in which add() evicts a good node is rejected", corrupt_eviction))
+        f_ctl = []
+        if table_ok:
+            for name, fn in ctl:
+                try:
+                    bad = fn(all_docs)
+                except MachineryError:
+                    bad = None
+                f_ctl.append((name, pool.submit(run_validation, bad) if bad else None))
 
-    # ---- negative controls of the trace binding (on accepted material only)
-    if all_docs and table_ok:
-        ctx.control("trace whose closest_nodes answer has its two nearest nodes swapped is rejected",
-                    validate(ctx, corrupt_closest(all_docs), "ctl", True)[0])
-        ctx.control("trace whose table holds a node in a bucket that does not own it is rejected",
-                    validate(ctx, corrupt_bucket(all_docs), "ctl", True)[0])
-        bad = None if quick else corrupt_eviction(all_docs)
-        if bad:
-            ctx.control("trace in which add() evicts a good, fast node is rejected", validate(ctx, bad, "ctl", True)[0])
+        # ---- spec level negative controls
+        ctx.control("spec whose generate_id ignores the bucket prefix violates GeneratedIdInBucket",
+                    f_ctl_gen.result().violated == "GeneratedIdInBucket")
+        ctx.control("spec that splits buckets off our own path violates OwnPathShape / SplitOnlyOwnPath",
+                    f_ctl_split.result().violated in ("OwnPathShape", "SplitOnlyOwnPath", "action-property"))
+
+        # ---- R: walk the graphs on the real code (main thread) as TLC delivers them
+        qdocs = []
+        for (cfg, tag, max_ops, nq), fg in zip(plan, f_graphs):
+            graph = fg.result()
+            if not any(v[0].startswith("replay:") for v in ctx.violations):
+                replay_graph(ctx, real, cfg, tag, rng, max_ops, nq, qdocs, graph)
+        ctx.cov["exhaustive"] = all(v.get("complete") for k, v in ctx.parts.items() if k.startswith("replay_"))
+        f_q = []
+        if qdocs and not any(v[0].startswith("replay:") for v in ctx.violations):
+            for width in sorted({d["w"] for d in qdocs}):
+                part = [d for d in qdocs if d["w"] == width]
+                for i in range(0, len(part), 4000):
+                    f_q.append(("closest_model_w%d_%d" % (width, i // 4000), part[i:i + 4000],
+                                pool.submit(run_validation, part[i:i + 4000])))
+            ctx.sample({"model_table": qdocs[len(qdocs) // 2]["origin"], "queries": qdocs[len(qdocs) // 2]["events"][:2]})
+
+        # ---- collect (deterministic order)
+        for (cfg, tag, _a), f in zip(plain, f_plain):
+            ctx.add_tlc(tag, f.result())
+        for tag, part, f in f_q:
+            validate(ctx, part, tag, result=f.result())
+        for i, (batch, f) in enumerate(f_traces):
+            r = f.result()
+            if table_ok:
+                ok, _r = validate(ctx, batch, "trace_%d" % i, result=r)
+                table_ok = table_ok and ok
+        if all_docs:
+            d = all_docs[0]
+            ctx.sample({"history_chunk": d["origin"], "first_events": [
+                {k: v for k, v in e.items() if k not in ("table", "attr")} for e in d["events"][:4]]})
+        # E: generate_id documents are validated on their own, so a defect there does not hide the table checks;
+        # seeded draws and forced extremes are told apart when something is rejected
+        if f_gen is not None:
+            ok, _r = validate(ctx, both, "generate_id", result=f_gen.result())
+            if not ok and gen_sampled and gen_forced:
+                validate(ctx, gen_sampled, "generate_id_sampled")
+                validate(ctx, gen_forced, "generate_id_forced")
+            ctx.sample({"generate_id_chunk": both[0]["origin"], "events": both[0]["events"][:2]})
+        ctx.note("generate_id", {"calls_decided_by_tlc": sum(len(d["events"]) for d in both),
+                                 "random_source_forced_to_extremes": bool(gen_forced)})
+        for name, f in f_ctl:
+            if f is not None and table_ok:
+                ctx.control(name, not f.result().ok)
+    finally:
+        pool.shutdown(wait=True, cancel_futures=True)
     return ctx.finish()
